@@ -67,7 +67,7 @@ class ApplyHistory(Machine):
                        "batch_middle_fails", "batch_gt_n", "batch_not_dividing", "exception_then_success",
                        "mask_checked", "apply_shape", "constrain_batched", "set_target_between_applies",
                        "out_of_domain_mix", "apply_on_copy", "integer_dtype_buffer", "non_contiguous_view_input", "pseudoinverse_of_used_transform",
-                       "parameters_updated_in_place_between_applies")
+                       "parameters_updated_in_place_between_applies", "earlier_result_still_valid")
 
     @classmethod
     def swarm(cls, rng, tier):
@@ -423,6 +423,13 @@ class ApplyHistory(Machine):
             ctx.fail("apply_pure", "unexpected_exception_" + kind, "%s.apply raised %r (batch=%r, n=%d)" % (kind, ex, batch, n))
             return
         ctx.out("apply", kind, batch, how, None if got is None else got, got_exc is not None)
+        # what an earlier call returned must not be rewritten by this one (no shared work arrays)
+        held = e.get("held")
+        if held is not None:
+            ctx.require(np.array_equal(held[0], held[1]), "apply_pure", "earlier_result_overwritten_by_later_call_" + kind,
+                        lambda: "the array returned by an earlier %s.apply() changed during a later call" % kind)
+            ctx.probe("earlier_result_still_valid")
+        e["held"] = None if (got is None or np.shares_memory(got, a) or np.shares_memory(got, arg)) else (got, got.copy())
         ctx.require(np.array_equal(arg, snapshot), "input_intact", "apply_modified_input_" + kind,
                     lambda: "%s.apply(batch=%r) modified the array it was given" % (kind, batch))
         e["last"] = (a, a.shape)
